@@ -133,9 +133,15 @@ impl Universe {
                     msg.header.rcode = Rcode::NameError;
                     (ReplyKind::NxDomain, 0)
                 }
-                Truth::Undefined(_) => {
-                    msg.header.rcode = Rcode::ServerFailure;
-                    (ReplyKind::Refused, 0)
+                Truth::Undefined(chain) => {
+                    if chain.is_empty() {
+                        msg.header.rcode = Rcode::ServerFailure;
+                        (ReplyKind::Refused, 0)
+                    } else {
+                        // the chain leaves what this server can resolve
+                        msg.answers.extend(chain);
+                        (ReplyKind::Cname, 0)
+                    }
                 }
             };
             return HonestReply {
@@ -623,6 +629,9 @@ pub struct Exchange {
     pub sent_msg: Option<Message>,
     /// label count of the deepest zone served at the address asked (0 = none)
     pub server_depth: usize,
+    /// unexpired address records in the cache when the exchange started
+    /// (only recorded when `RunSpec::record_held`)
+    pub held_addrs: Vec<(DomainName, IpAddr)>,
     /// which step (question of the history) this belongs to
     pub step: usize,
 }
@@ -646,6 +655,10 @@ pub struct Env {
     /// faults apply only to exchanges of these steps (None = all)
     explore_orders: bool,
     state: Mutex<EnvState>,
+    /// the cache of the run (to record which addresses were held at the time
+    /// of each exchange)
+    cache: Mutex<Option<SharedCache>>,
+    record_held: bool,
     t0: tokio::time::Instant,
 }
 
@@ -751,6 +764,23 @@ impl Transport for MockTransport {
             Ok(Some(b)) => refwire::decode_prefix_records(b),
             _ => Vec::new(),
         };
+        let held: Vec<(DomainName, IpAddr)> = if env.record_held {
+            let cache = env.cache.lock().unwrap().clone();
+            match cache {
+                Some(c) => dump_cache(&c)
+                    .into_iter()
+                    .filter(|r| r.ttl > 0)
+                    .filter_map(|r| match r.rtype_with_data {
+                        RecordTypeWithData::A { address } => Some((r.name, IpAddr::V4(address))),
+                        RecordTypeWithData::AAAA { address } => Some((r.name, IpAddr::V6(address))),
+                        _ => None,
+                    })
+                    .collect(),
+                None => Vec::new(),
+            }
+        } else {
+            Vec::new()
+        };
         {
             let mut s = env.state.lock().unwrap();
             s.log.push(Exchange {
@@ -778,6 +808,7 @@ impl Transport for MockTransport {
                     .get(&address.ip())
                     .and_then(|zs| zs.iter().map(|z| env.universe.zones[*z].apex.labels.len()).max())
                     .unwrap_or(0),
+                held_addrs: held,
                 step,
             });
         }
@@ -838,6 +869,7 @@ pub struct RunSpec {
     pub faults: Vec<Fault>,
     pub fault_window: usize,
     pub explore_orders: bool,
+    pub record_held: bool,
 }
 
 #[derive(Debug, Clone)]
@@ -900,6 +932,8 @@ pub fn run_once(spec: &RunSpec, prefix: &[usize]) -> RunResult {
                 upstream_enabled: true,
                 ..Default::default()
             }),
+            cache: Mutex::new(None),
+            record_held: spec.record_held,
             t0,
         });
         // hooks
@@ -922,6 +956,7 @@ pub fn run_once(spec: &RunSpec, prefix: &[usize]) -> RunResult {
         }
 
         let cache = SharedCache::with_desired_size(spec.cache_size);
+        *env.cache.lock().unwrap() = Some(cache.clone());
         let mut asks = Vec::new();
         let mut step_no = 0usize;
         for step in &spec.steps {
